@@ -115,3 +115,6 @@ impl<T> HashSet<T> {
     /// `Extend<T>::extend` with another set
     #[verifier::external_body] pub fn extend(&mut self, other: HashSet<T>) ensures final(self).view() == old(self).view() + other.view() { unimplemented!() }
 }
+/// elem_order() is by definition a duplicate-free enumeration of exactly the elements (trusted axiom of the model)
+pub axiom fn axiom_hashset_order_ok<T>(s: HashSet<T>)
+    ensures s.order_ok();
